@@ -79,9 +79,9 @@ CHECKS = {
         "level": "fault_enumeration",
         "technique": "fault enumeration with property-based instantiation (rapid): every (entry point, injected fault, channel capacity) triple x random profiles/graphs, against a model of the event protocol; closure decided by channel state (second close / probe send), never by timing",
         "design_ref": "DESIGN.md §5 C11",
-        "level_text": "The table 6 entry points x 15 fault classes (none; five profile-parsing faults; unknown prefix; Rego that does not compile; denied built-in; data not JSON; JSON-LD rejects; node-less data; evaluation error; report-building failure) x channel capacity {64,1,0} is enumerated completely in both tiers; each applicable triple is instantiated with random generated profiles and graphs (3 per triple quick, 100 thorough). Observed events must be a prefix of the stage order, complete on success, reach the start of the failing stage and not go beyond its completion; the channel is closed exactly once by the validating call (a second close by the harness must panic; a library double close surfaces as a panic), open after a successful stand-alone CompileProfile (probe send succeeds) and closed after a failed one; timestamps are monotone; milestones replayed from the events are one per completed named stage with matching start and non-negative duration, and the milestone channel is closed.",
+        "level_text": "The table 6 entry points x 16 fault classes (none; five profile-parsing faults; unknown prefix; Rego that does not compile; denied built-in; data not JSON; JSON-LD rejects; node-less data; evaluation error; report-building failure; a nil validation configuration) x channel capacity {64,1,0} is enumerated completely in both tiers; each applicable triple is instantiated with random generated profiles and graphs (3 per triple quick, 100 thorough). Observed events must be a prefix of the stage order, complete on success, reach the start of the failing stage and not go beyond its completion; the channel is closed exactly once by the validating call (a second close by the harness must panic; a library double close surfaces as a panic), open after a successful stand-alone CompileProfile (probe send succeeds) and closed after a failed one; timestamps are monotone; milestones replayed from the events are one per completed named stage with matching start and non-negative duration, and the milestone channel is closed.",
         "level_note": "Evaluation and report-building faults are injected through rego_extensions (a conflicting report[\"profile\"], a non-list `warning`), used purely as fault injectors. RegoCompilation has no milestone in the vocabulary (DESIGN §6 I3). A call that never returns hits the deadline = inconclusive.",
-        "rule": "unit = (entry point, fault, capacity) triple, all 270 enumerated, inapplicable combinations (profile faults for a validate-only entry, data faults for compile-only) discarded and counted; case = triple x random instantiation; every judged case is non-trivial; distinct by sha1 of the case",
+        "rule": "unit = (entry point, fault, capacity) triple, all 288 enumerated, inapplicable combinations (profile faults for a validate-only entry, data faults for compile-only) discarded and counted; case = triple x random instantiation; every judged case is non-trivial; distinct by sha1 of the case",
         "assumptions": TRUST + ["the library sends events synchronously from the calling goroutine (no background sender), so channel state after return is final"],
         "exhaustive": True,
         "units": [unit("protocol", "^TestC11$", 10, 200, timeout=(600, 3000))],
